@@ -209,6 +209,8 @@ def run_cmp(sc, res):
         for uid, dl in delivered.items():
             pl = processed.get(uid, [])
             for i, rec in enumerate(pl):
+                if i >= len(dl):
+                    break        # (processed more than was delivered: reported above as order-or-loss)
                 t_d = dl[i][0]
                 prev_end = pl[i - 1]['t1'] if i else None
                 expected = max(t_d, prev_end) if prev_end is not None else t_d
